@@ -571,7 +571,7 @@ func lemma1HitDiscriminator(docNum, normBits uint64) {
 //@ clean invertedIndexOpaque.reusableFieldLens len0
 //@ clean invertedIndexOpaque.reusableFieldTFs len0
 //@ clean invertedIndexOpaque.tmp0 len0
-//@ clean invertedIndexOpaque.fieldAddrs exempt never reset: every key read by AddrForField in a build is written earlier in the same build by writeDicts (not decided here)
+//@ clean invertedIndexOpaque.fieldAddrs empty
 //@ clean invertedIndexOpaque.fieldsSame zero
 //@ clean invertedIndexOpaque.numDocs zero
 
@@ -584,7 +584,7 @@ func lemma1HitDiscriminator(docNum, normBits uint64) {
 //@ loop 3 invariant io.IncludeDocValues == old(io.IncludeDocValues) && 0 <= $k && $k <= len(io.IncludeDocValues) [C03,C10]
 //@ loop 3 invariant forall j int :: {row(io.IncludeDocValues)[off(io.IncludeDocValues) + j]} (0 <= j && j < $k) || (len(io.IncludeDocValues) <= j && j < cap(io.IncludeDocValues)) ==> !row(io.IncludeDocValues)[off(io.IncludeDocValues) + j] [C03,C10]
 //@ ensures clean(io)
-//@ modifies invertedIndexOpaque.*[io], ghost bmSet, elems(*), interimFreqNorm.*, interimLoc.*
+//@ modifies invertedIndexOpaque.*[io], ghost bmSet, elems(*), interimFreqNorm.*, interimLoc.*, maps
 //@ end
 
 //@ clean synonymIndexOpaque.results nil
